@@ -82,7 +82,15 @@ class TypeNormalizer:
         elif isinstance(t, tuple):
             # Like typing.Union: a repeated member counts once, and the
             # union of a single type is that type
-            members = tuple(dict.fromkeys(self(t2, fn) for t2 in t))
+            members = []
+            for t2 in t:
+                t2 = self(t2, fn)
+                handler = getattr(t2, "_handler", None)
+                # (A, (B, C)) and (A, B | C) are the flat union, like typing's
+                members.extend(
+                    handler.types if isinstance(handler, _Union) else [t2]
+                )
+            members = tuple(dict.fromkeys(members))
             return members[0] if len(members) == 1 else Union[members]
         elif isinstance(t, DependentType) and not t.bound:
             raise UsageError(
